@@ -468,8 +468,13 @@ class HierDictDocument(DictDocument):
                 # Wrappers are auto-generated objects that have exactly one
                 # child type.
                 key, = ti.keys()
-                if not issubclass(cls, Array):
-                    inst = getattr(inst, key, None)
+                if issubclass(cls, Array):
+                    # inst is the list of its items now: an item that is an
+                    # array itself is peeled when its turn comes
+                    cls, = ti.values()
+                    break
+
+                inst = getattr(inst, key, None)
                 cls, = ti.values()
                 ti = getattr(cls, '_type_info', {})
 
